@@ -469,6 +469,17 @@ pub fn drive(
                     thread::sleep(Duration::from_millis(ms));
                     qp.decision = format!("sleep:{ms}+");
                 }
+                // postponed in-span logs (a detached task logging in a step's span)
+                let n_deferred = with_rs(|rs| rs.deferred.len());
+                if n_deferred > 0 && ((blocked.is_empty() && !parser_waiting) || rng.chance(1, 3)) {
+                    let owner = world::fire_deferred();
+                    qp.decision.push_str(&format!("deferred:{owner:?}"));
+                    out.sched_hash = mix(out.sched_hash, 0xDEF);
+                    with_rs(|rs| rs.q += 1);
+                    out.qpoints.push(qp);
+                    streak = 0;
+                    continue;
+                }
                 let can_gate = !blocked.is_empty();
                 let choose_deliver = parser_waiting && (!can_gate || rng.chance(1, 3));
                 if choose_deliver {
